@@ -2,7 +2,7 @@
    traces, and their soundness: a program that satisfies the judgement produces only traces
    the monitor accepts.  tools/props/C12.py and C13.py evaluate the monitors on the traces
    of the running library (no model involved in that evaluation). *)
-From PV Require Import ProgTac PathProofs BitsProofs RootM Replay BeneathProofs.
+From PV Require Import ProgTac PathProofs BitsProofs RootM Replay BeneathProofs FaultProofs EffectProofs.
 From Coq Require Import Lia.
 Open Scope N_scope.
 
@@ -132,3 +132,28 @@ Fixpoint trace_chain (t : trace) : bool :=
   | (Mkdirat d n m, r) :: t' => trace_chain_from t (d, None)
   | _ :: t' => trace_chain t'
   end.
+
+(* ---- how many tree-changing calls a trace contains --------------------------------------- *)
+
+Fixpoint trace_count (f : call -> bool) (t : trace) : nat :=
+  match t with
+  | [] => 0%nat
+  | (c, _) :: t' => ((if f c then 1 else 0) + trace_count f t')%nat
+  end.
+
+Theorem calls_le_sound {A} (f : call -> bool) (p : prog A) : forall n t idx a m,
+  calls_le f n p -> run_trace p t idx = RDone a m -> (trace_count f t <= n)%nat.
+Proof.
+  intros n t idx a m Hc. revert t idx. induction Hc as [n a0|n c k Hf Hk IH|n c k Hf Hk IH|n s|n]; intros t idx Hr.
+  - destruct t; cbn in Hr; [cbn; lia|discriminate].
+  - destruct t as [|[c' r] t']; cbn in Hr; [discriminate|].
+    destruct (call_eqb c c') eqn:E; [|discriminate]. apply call_eqb_eq in E. subst c'.
+    cbn [trace_count]. rewrite Hf. specialize (IH r t' (S idx) Hr). lia.
+  - destruct t as [|[c' r] t']; cbn in Hr; [discriminate|].
+    destruct (call_eqb c c') eqn:E; [|discriminate]. apply call_eqb_eq in E. subst c'.
+    cbn [trace_count]. rewrite Hf. specialize (IH r t' (S idx) Hr). lia.
+  - cbn in Hr. discriminate.
+  - cbn in Hr. discriminate.
+Qed.
+
+Definition trace_effects (t : trace) : Z := Z.of_nat (trace_count eff t).
